@@ -88,7 +88,7 @@ Mix ==
                              "SetObjective", "SetObjCoef", "SetDirection", "SetMedium", "GetMedium", "SwitchSolver",
                              "AddUserCons", "AddUserVar", "RemoveUserCons", "RemoveUserVar", "AddGroup", "RemoveGroup",
                              "Copy", "Enter", "Exit", "RoundTrip", "DetachedSetBounds", "RxnArith", "Merge", "SaveDoc", "LoadDoc", "BuildFromString", "BuildFromString",
-                             "SetFunctional", "Repair", "ReAddDetached", "ReAddDetached", "AddArith">>
+                             "SetFunctional", "Repair", "ReAddDetached", "ReAddDetached", "AddArith", "FixObjective">>
     [] Profile = "ctx" -> <<"Enter", "Enter", "Enter", "Exit", "Exit", "Exit", "AddReactions", "RemoveReactions",
                             "RemoveReactions", "AddMetabolites", "RemoveMetabolites", "AddBoundary", "RxnAddMetabolites",
                             "RxnAddMetabolites", "RxnSubtractMetabolites", "RxnIMul", "RxnIAdd", "RxnISub", "SetLB", "SetUB",
@@ -96,7 +96,7 @@ Mix ==
                             "RenameGene", "SetObjective", "SetObjCoef", "SetDirection", "SetMedium", "SwitchSolver",
                             "AddUserCons", "AddUserVar", "RemoveUserCons", "RemoveUserVar", "Helper", "Helper",
                             "DetachedSetBounds", "DetachedSetBounds", "Copy", "Merge", "BuildFromString", "SetFunctional", "RenameReaction",
-                            "RenameMetabolite", "SwitchSolver", "ReAddDetached", "ReAddDetached", "Repair">>
+                            "RenameMetabolite", "SwitchSolver", "ReAddDetached", "ReAddDetached", "Repair", "FixObjective">>
     [] Profile = "ko" -> <<"GeneKnockOut", "GeneKnockOut", "GeneKnockOut", "KnockOutModelGenes", "KnockOutModelGenes",
                            "RxnKnockOut", "SetRule", "SetRule", "Enter", "Exit", "SetBounds", "AddReactions", "SetFunctional">>
     [] Profile = "copy" -> <<"Copy", "Copy", "AddReactions", "RemoveReactions", "RemoveMetabolites", "RxnAddMetabolites",
@@ -108,7 +108,7 @@ Mix ==
                            "SetBounds", "SetBounds", "SetLB", "SetUB", "SetRule", "SetObjective", "SetObjCoef",
                            "SetDirection", "AddBoundary", "AddGroup", "Annotate", "Annotate", "Annotate", "RenameGene",
                            "AddMetabolites", "Copy", "SaveDoc", "SaveDoc", "LoadDoc", "LoadDoc">>
-    [] Profile = "analyze" -> <<"Analyze", "Analyze", "Analyze", "Analyze", "SetBounds", "SetObjective", "SetDirection",
+    [] Profile = "analyze" -> <<"Analyze", "Analyze", "Analyze", "Analyze", "FixObjective", "SetBounds", "SetObjective", "SetDirection",
                                 "RemoveReactions", "AddReactions", "GeneKnockOut", "Enter", "Exit", "RxnKnockOut">>
 
 AnalysisKinds == <<"optimize", "optimize_min", "slim_optimize", "fva", "fva_loopless", "find_blocked", "essential_genes",
@@ -175,6 +175,7 @@ DrawOp(r, S) ==
     [] k = "BuildFromString" -> base @@ [r |-> rx, d |-> DrawD(C, SubSeq(d, 8, 12)), arrow |-> Pick(<<"fwd", "rev", "both">>, d[13])]
     [] k = "SetFunctional" -> base @@ [g |-> gn, b |-> d[8] % 2 = 0]
     [] k = "Repair" -> base
+    [] k = "FixObjective" -> base
     [] k = "RxnArith" -> base @@ [r |-> rx, q |-> rx2, kind |-> Pick(<<"copy", "add", "sub", "mul">>, d[8]), k |-> Pick(<<2, -1, 3, -2>>, d[9])]
     [] k = "ReAddDetached" -> base @@ [r |-> PickPresent(RxSeq, RxU \ C.rxns, d[3])]
     [] k = "DetachedSetBounds" -> base @@ [r |-> PickPresent(RxSeq, RxU \ C.rxns, d[3]), lo |-> Pick(LoVals, d[8]), hi |-> Pick(HiVals, d[9])]
